@@ -262,10 +262,93 @@ def run_autoverify(ctx):
             ctx.corr_broken.append({"stream": "run_auto_verify-misses-old-copy", "flipped": flipped, "model": sorted(eligible), "table": table})
 
 
+def run_lifecycle(ctx):
+    """the walker's life across main-loop iterations: `reinit(fresh row)` then `update_idle()` as update_loop does, several
+    iterations, with records added/removed in between; the batches handed out (recorded at QueryWalker.get) must continue
+    where the previous one stopped, so every copy present throughout is selected again within ceil(N/k)+1 iterations"""
+    import alpenhorn.daemon.update as upd
+    from alpenhorn.db import ArchiveAcq, ArchiveFile, ArchiveFileCopy, StorageGroup, StorageNode
+    from alpenhorn.scheduler import FairMultiFIFOQueue
+    rng = ctx.rng
+    n = 60 if ctx.quick() else 1500
+    batches = []
+    real_get = upd.QueryWalker.get
+
+    def rec_get(self_, k):
+        out = real_get(self_, k)
+        batches.append([c.id for c in out])
+        return out
+    upd.QueryWalker.get = rec_get
+    try:
+        with envmod.Env() as e:
+            root = e.root("n")
+            with open(os.path.join(root, "ALPENHORN_NODE"), "w") as fh:
+                fh.write("n\n")
+            e.config.config["daemon"]["auto_verify_min_days"] = 10 ** 6      # nothing is old enough: the table does not change by itself
+            for it in range(n):
+                for m in (ArchiveFileCopy, ArchiveFile, ArchiveAcq, StorageNode, StorageGroup):
+                    m.delete().execute()
+                g = StorageGroup.create(name="g")
+                k = rng.choice([1, 2, 3, 5])
+                N = rng.randint(k + 1, 14)
+                node = StorageNode.create(name="n", group=g, root=root, host="h1", active=True, auto_verify=k)
+                acq = ArchiveAcq.create(name="a")
+                ids = []
+                for i in range(N):
+                    f = ArchiveFile.create(acq=acq, name=f"f{i}", size_b=1, md5sum="0" * 32)
+                    ids.append(ArchiveFileCopy.create(file=f, node=node, has_file="Y", wants_file="Y").id)
+                un = upd.UpdateableNode(FairMultiFIFOQueue(), StorageNode.get(id=node.id))
+                permanent = set(ids)
+                bound = -(-N // k) + 1
+                iters = bound + rng.randint(0, 2)
+                del batches[:]
+                churn = rng.random() < 0.5
+                maxN = N
+                for t in range(iters):
+                    un.reinit(StorageNode.get(id=node.id))          # once per main-loop iteration
+                    un._updated = True
+                    un.update_idle()
+                    item = un._queue.get(timeout=0.001)       # run what the idle update queued (tidy-up): the node is idle again
+                    while item is not None:
+                        item[0]()
+                        un._queue.task_done(item[1])
+                        item = un._queue.get(timeout=0.001)
+                    if churn and rng.random() < 0.5:
+                        victim = rng.choice(sorted(permanent))
+                        if len(permanent) > k + 1 and rng.random() < 0.5:
+                            ArchiveFileCopy.delete().where(ArchiveFileCopy.id == victim).execute()
+                            permanent.discard(victim)
+                        else:
+                            f = ArchiveFile.create(acq=acq, name=f"x{t}", size_b=1, md5sum="0" * 32)
+                            ArchiveFileCopy.create(file=f, node=node, has_file="Y", wants_file="Y")
+                            maxN += 1
+                seen = set(i for b in batches for i in b)
+                # bound for the window actually run: with N' = the largest table size seen, ceil(N'/k)+1 iterations suffice
+                need = -(-maxN // k) + 1
+                ctx.case(("lifecycle", N, k, iters, churn, tuple(map(tuple, batches))), nontrivial=True,
+                         sample={"N": N, "k": k, "iterations": iters, "batches": batches[:8]} if len(ctx.samples) < 6 and it < 2 else None)
+                ctx.count(f"lifecycle:k={k}:churn={int(churn)}")
+                if iters >= need and not permanent <= seen:
+                    ctx.violation(f"lifecycle:missed:k={k}", f"auto-verify over {iters} main-loop iterations (N={N}..{maxN}, k={k}) never selected "
+                                  f"copies {sorted(permanent - seen)[:6]} although they existed throughout; batches {batches}",
+                                  {"kind": "lifecycle", "N": N, "k": k, "iterations": iters, "batches": batches})
+                # continuation: without churn, consecutive batches are consecutive runs of the cyclic id order
+                if not churn and len(batches) >= 2:
+                    order = sorted(ids)
+                    for a, b in zip(batches, batches[1:]):
+                        if a and b and order[(order.index(a[-1]) + 1) % len(order)] != b[0]:
+                            ctx.violation(f"lifecycle:restart:k={k}", f"a batch did not continue where the previous one stopped: {a} then {b} "
+                                          f"(table {order})", {"kind": "lifecycle", "N": N, "k": k, "batches": batches})
+                            break
+    finally:
+        upd.QueryWalker.get = real_get
+
+
 def run(ctx):
     ok = common.proof_stage(ctx, MODULE)
     run_walker(ctx)
     run_autoverify(ctx)
+    run_lifecycle(ctx)
     ctx.coverage["rule"] = ("random walker sequences on SQLite through the real QueryWalker: table sizes 0..16, k incl. 0, k>N, 2N+1; "
                             "observed random start; insert/delete/state-flip churn between calls; each call compared with the Lean "
                             "model (same table, cursor, k) and with a cyclic-order oracle; bound floor((N-1)/k)+1 checked on every "
